@@ -18,7 +18,7 @@ ASSUMPTIONS = [
 ]
 OUTSIDE = ["screens above the row bound", "compositions deeper than subset(subset()) + combine/invert/to_screen"]
 RULE = "every selection bit is a solver-decided fork; observation values stay symbolic on each path."
-BUDGET_S = {"quick": 200, "thorough": 1500}
+BUDGET_S = {"quick": 600, "thorough": 3000}
 TASK_QUOTA = 120
 
 # (sample, t1, d1, t2, d2, plate)
